@@ -42,7 +42,13 @@ fn gen_rops(rng: &mut Rng, model: &Model, n: usize, chunk: usize, block: usize, 
                 ops.push(ROp::Open { name });
                 let k = rng.below(6);
                 for _ in 0..k {
-                    ops.push(ROp::Read { n: *rng.pick(&bufs) });
+                    if rng.chance(1, 8) {
+                        // one vectored read into 1-4 buffers (some empty)
+                        let sizes: Vec<usize> = (0..rng.range(1, 4)).map(|_| *rng.pick(&[0usize, 1, 4, 5, 7, 16, 64, chunk, block + 1])).collect();
+                        ops.push(ROp::ReadVectored { sizes });
+                    } else {
+                        ops.push(ROp::Read { n: *rng.pick(&bufs) });
+                    }
                 }
                 if rng.chance(1, 3) {
                     ops.push(ROp::ReadAll { n: (*rng.pick(&bufs)).max(1) });
@@ -65,7 +71,7 @@ impl Prop for C10 {
         "exploration"
     }
     fn rule(&self) -> String {
-        "run = seeded valid writer history with interleaved files spanning several chunks and blocks (all layer sets), opened once with the normal reader over the simulated source (one scaled run in 12: the same files in an archive of the independent writer - other ids, every block listed, empty blocks); then a seeded history of 20..200 reader operations on that ONE reader: list, get_hash, open a file (abandoning whichever was open), reads with buffers from {0,1,2,3,5,7,13,31,61,127,CHUNK-1,CHUNK,CHUNK+1,BLOCK-1,BLOCK,BLOCK+1,1 MiB}, read-to-end, reads after the end, opening missing names, the same file repeatedly; a quarter of the file visits STOP EXACTLY (or one byte around) where the file's bytes cross a block or chunk edge of the file-layer stream (positions solved from the stream-length model), abandon the file there and continue with the next operation. One scaled run in 40 holds files of 70..1000 non-contiguous runs of 1-3 bytes. One scaled run in 50 has 300..4200 files and a history that asks for the hash of EVERY file, then again for the first 120 and 150 seeded ones, then opens, reads and hashes every seventh file and the first 60 (thousands of operations on one reader). Model: a per-file cursor over the abstract model's bytes (= what reading that file alone right after opening gives, which C01 establishes): every read returns exactly the bytes at the cursor (fewer than asked is allowed, 0 only for an empty buffer or at the end), sizes and hashes equal the model's at every point of the history. distinct_nontrivial = distinct (variant, layers, #files, interleaved, abandon point class vs chunk/block edge, buffer class) signatures.".into()
+        "run = seeded valid writer history with interleaved files spanning several chunks and blocks (all layer sets), opened once with the normal reader over the simulated source (one scaled run in 12: the same files in an archive of the independent writer - other ids, every block listed, empty blocks); then a seeded history of 20..200 reader operations on that ONE reader: list, get_hash, open a file (abandoning whichever was open), reads with buffers from {0,1,2,3,5,7,13,31,61,127,CHUNK-1,CHUNK,CHUNK+1,BLOCK-1,BLOCK,BLOCK+1,1 MiB}, one read in eight is a read_vectored call into 1-4 buffers (some empty), read-to-end, reads after the end, opening missing names, the same file repeatedly; a quarter of the file visits STOP EXACTLY (or one byte around) where the file's bytes cross a block or chunk edge of the file-layer stream (positions solved from the stream-length model), abandon the file there and continue with the next operation. One scaled run in 40 holds files of 70..1000 non-contiguous runs of 1-3 bytes. One scaled run in 50 has 300..4200 files and a history that asks for the hash of EVERY file, then again for the first 120 and 150 seeded ones, then opens, reads and hashes every seventh file and the first 60 (thousands of operations on one reader). Model: a per-file cursor over the abstract model's bytes (= what reading that file alone right after opening gives, which C01 establishes): every read returns exactly the bytes at the cursor (fewer than asked is allowed, 0 only for an empty buffer or at the end), sizes and hashes equal the model's at every point of the history. distinct_nontrivial = distinct (variant, layers, #files, interleaved, abandon point class vs chunk/block edge, buffer class) signatures.".into()
     }
     fn assumptions(&self) -> Vec<String> {
         vec!["the source splits nothing (split sources are C13)".into()]
@@ -210,6 +216,22 @@ impl Prop for C10 {
                         }
                     }
                 }
+                (ROp::ReadVectored { sizes }, RRes::Bytes(b)) => {
+                    // judged like a read into one buffer of the total size
+                    if let Some((name, pos)) = cur.as_mut() {
+                        let total: usize = sizes.iter().sum();
+                        let orig = &model.files[*name];
+                        let left = orig.len() - (*pos).min(orig.len());
+                        let ok = b.len() <= total.min(left) && orig[*pos..*pos + b.len()] == b[..] && (!b.is_empty() || total == 0 || left == 0);
+                        if !ok {
+                            v.push(Violation::new("history-wrong-read", "vectored", format!("{what}: file {:?} at {} of {}: {} bytes returned; a cursor over the file read alone gives other bytes (or the read stalled)", name.chars().take(12).collect::<String>(), pos, orig.len(), b.len())));
+                            break;
+                        }
+                        *pos += b.len();
+                    } else {
+                        v.push(Violation::new("history-wrong-read", "no-file", format!("{what}: bytes without an open file")));
+                    }
+                }
                 (ROp::Read { n }, RRes::Bytes(b)) => {
                     if let Some((name, pos)) = cur.as_mut() {
                         let orig = &model.files[*name];
@@ -247,7 +269,7 @@ impl Prop for C10 {
                         *pos = orig.len();
                     }
                 }
-                (ROp::Read { .. } | ROp::ReadAll { .. } | ROp::ReadExact { .. }, RRes::NoFile) if cur.is_none() => {}
+                (ROp::Read { .. } | ROp::ReadAll { .. } | ROp::ReadExact { .. } | ROp::ReadVectored { .. }, RRes::NoFile) if cur.is_none() => {}
                 (_, r) => {
                     v.push(Violation::new("history-op-error", "op", format!("{what}: {:?}", format!("{r:?}").chars().take(160).collect::<String>())));
                     break;
